@@ -126,6 +126,9 @@ func (w *TCP) Stop() {
 	vrt.Join(w.serve)
 }
 
+// Stop2 waits for StreamServe to return (the listener has been closed by the caller).
+func (w *TCP) Stop2() { vrt.Join(w.serve) }
+
 // Target is a scripted TCP target.
 type Target struct {
 	Addr     string
